@@ -762,17 +762,41 @@ func (n *BitcoinNode) handleBlock(ctx context.Context, header *wire.MessageHeade
 		return nil
 	}
 
-	rb := threads.NewReadCloser(rc)
-
-	n.blockReader = rb
 	n.Unlock()
+
+	rb := threads.NewReadCloser(rc)
 
 	// Read transaction count
 	txCount, err := wire.ReadVarInt(rb, wire.ProtocolVersion)
 	if err != nil {
 		logger.Verbose(ctx, "Aborting block download (read tx count) : %s", err)
+
+		// The handler will not be started and the request is cleared when this function returns,
+		// so the requester has to be told here that the request stopped.
+		n.Lock()
+		blockOnStop := n.blockOnStop
+		n.Unlock()
+		if blockOnStop != nil {
+			blockOnStop(ctx)
+		}
+
 		return errors.Wrap(errors.Wrap(err, blockHash.String()), "read tx count")
 	}
+
+	// Setting the block reader makes a cancel of the request report that the handler was already
+	// started, and then the handler is relied on to complete the request. So only set it when the
+	// handler is certain to be started.
+	n.Lock()
+	blockHandler = n.blockHandler
+	if blockHandler == nil {
+		// Block cancelled while the tx count was read.
+		n.Unlock()
+		logger.Verbose(ctx, "Aborting block (no handler)")
+		return nil
+	}
+
+	n.blockReader = rb
+	n.Unlock()
 
 	var wait sync.WaitGroup
 	txChannel := make(chan *wire.MsgTx, 1000)
